@@ -1,5 +1,6 @@
 import DFV.Lemmas.C16Examples
-import DFV.Lemmas.C16Text
+import DFV.Lemmas.C16Cells
+import DFV.Lemmas.C16Fix
 /-!
 # C16 — VTK output puts each value in the grid cell a VTK reader finds at that position
 
@@ -396,6 +397,493 @@ theorem text_rounds_valuewise (rnd : Rat → Rat) (g : Grid) (ax : Nat) (j : Nat
   rw [List.getElem?_eq_getElem hj']
   simp
 
+/-! ## round 4: the lookup at full strength -/
+
+/-- **No cell outside the region.**  At a point with a coordinate below `pmin` or above `pmax`
+the lookup in the grid of a well-formed field finds nothing. -/
+theorem lookup_outside (f : Fld) (nx ny nz : Nat) (h : WF f nx ny nz) (g : Grid) (hg : toVtk f = .ok g)
+    (p : List Rat) (a : Nat) (ha : a < 3)
+    (hout : p.getD a 0 < f.mesh.region.lo a ∨ f.mesh.region.hi a < p.getD a 0) : locate g p = none := by
+  obtain ⟨hnd, _, _, hax, _, _, _⟩ := mesh_axes f nx ny nz h
+  rw [toVtk_ok f nx ny nz h] at hg
+  injection hg with hg
+  subst hg
+  have hnone := findInterval_vertices_none f.mesh a (by omega) (hax a ha).1 (hax a ha).2 _ hout
+  unfold locate
+  simp only [Grid.ax]
+  rw [getD_tab _ _ _ _ (by omega : 0 < 3), getD_tab _ _ _ _ (by omega : 1 < 3), getD_tab _ _ _ _ (by omega : 2 < 3)]
+  have : a = 0 ∨ a = 1 ∨ a = 2 := by omega
+  rcases this with rfl | rfl | rfl
+  · rw [hnone]
+  · rw [hnone]; split <;> simp_all
+  · rw [hnone]; split <;> simp_all
+
+/-- **The lookup succeeds exactly on the closed region** (with the two theorems above: a cell is
+found at `p` iff `pmin ≤ p ≤ pmax` on the three axes). -/
+theorem lookup_iff_inside (f : Fld) (nx ny nz : Nat) (h : WF f nx ny nz) (g : Grid) (hg : toVtk f = .ok g)
+    (p : List Rat) (hl : p.length = 3) :
+    (∃ id, locate g p = some id) ↔ f.mesh.region.containsExact p := by
+  obtain ⟨hnd, _, _, _, _, _, _⟩ := mesh_axes f nx ny nz h
+  have hnd' : f.mesh.region.ndim = 3 := hnd
+  constructor
+  · rintro ⟨id, hid⟩
+    refine ⟨by rw [hl, hnd'], ?_⟩
+    intro a ha
+    rw [hnd'] at ha
+    by_contra hc
+    have hout : p.getD a 0 < f.mesh.region.lo a ∨ f.mesh.region.hi a < p.getD a 0 := by
+      by_contra hn
+      apply hc
+      constructor
+      · by_contra h1; exact hn (Or.inl (lt_of_not_ge h1))
+      · by_contra h1; exact hn (Or.inr (lt_of_not_ge h1))
+    rw [lookup_outside f nx ny nz h g hg p a ha hout] at hid
+    cases hid
+  · intro hp
+    exact ⟨_, (lookup_is_point2index f nx ny nz h g hg p hp).2⟩
+
+/-- **The box of the located cell, in mesh terms.**  Whatever the lookup returns at `p` is the
+structured id of an in-range mesh cell `(i, j, k)` whose closed box
+`[pmin + i·cell, pmin + (i+1)·cell]` contains `p` on every axis. -/
+theorem located_cell_box (f : Fld) (nx ny nz : Nat) (h : WF f nx ny nz) (g : Grid) (hg : toVtk f = .ok g)
+    (p : List Rat) (id : Nat) (hid : locate g p = some id) :
+    ∃ idx, inRange [nx, ny, nz] idx = true ∧ id = flatF [nx, ny, nz] idx ∧
+      ∀ a, a < 3 → f.mesh.region.lo a + (idx.getD a 0 : Rat) * f.mesh.cellAt a ≤ p.getD a 0 ∧
+        p.getD a 0 ≤ f.mesh.region.lo a + ((idx.getD a 0 : Rat) + 1) * f.mesh.cellAt a := by
+  obtain ⟨hnd, _, _, hax, hn0, hn1, hn2⟩ := mesh_axes f nx ny nz h
+  rw [toVtk_ok f nx ny nz h] at hg
+  injection hg with hg
+  subst hg
+  unfold locate at hid
+  simp only [Grid.ax] at hid
+  rw [getD_tab _ _ _ _ (by omega : 0 < 3), getD_tab _ _ _ _ (by omega : 1 < 3), getD_tab _ _ _ _ (by omega : 2 < 3)] at hid
+  split at hid
+  · rename_i i j k hi hj hk
+    injection hid with hid
+    obtain ⟨a1, a2, a3⟩ := findInterval_vertices_box f.mesh 0 (by omega) (hax 0 (by omega)).1 _ _ hi
+    obtain ⟨b1, b2, b3⟩ := findInterval_vertices_box f.mesh 1 (by omega) (hax 1 (by omega)).1 _ _ hj
+    obtain ⟨c1, c2, c3⟩ := findInterval_vertices_box f.mesh 2 (by omega) (hax 2 (by omega)).1 _ _ hk
+    refine ⟨[i, j, k], inRange3 _ _ _ _ _ _ (by omega) (by omega) (by omega), ?_, ?_⟩
+    · rw [← hid, cellId_eq_flatF]
+    · intro a ha
+      have : a = 0 ∨ a = 1 ∨ a = 2 := by omega
+      rcases this with rfl | rfl | rfl
+      · exact ⟨a2, a3⟩
+      · exact ⟨b2, b3⟩
+      · exact ⟨c2, c3⟩
+  · cases hid
+
+/-- **`vtk_lookup`, object level, every clause.**  For every point `p` of the closed region:
+`mesh.point2index` accepts `p` and returns an in-range cell `idx` that contains `p`; the grid
+lookup finds the cell with the structured id of `idx`; and at that id the grid carries the
+cell's vector (`field`), its squared norm (`norm`), its validity flag (`valid`, integer-typed)
+and, for a field with more than one component, in the scalar array named after label `c` the
+component `c` of the cell. -/
+theorem vtk_lookup_full (f : Fld) (nx ny nz : Nat) (h : WF f nx ny nz) (g : Grid) (hg : toVtk f = .ok g)
+    (p : List Rat) (hp : f.mesh.region.containsExact p) :
+    ∃ idx, f.mesh.point2index p = .ok idx ∧ inRange [nx, ny, nz] idx = true ∧ C01.inCell f.mesh idx p ∧
+      locate g p = some (flatF [nx, ny, nz] idx) ∧
+      (∃ a, g.arr "field" = some a ∧ a.ncomp = f.nvdim ∧
+        a.tuple (flatF [nx, ny, nz] idx) = tab f.nvdim fun c => (f.data.get idx).getD c 0) ∧
+      (∃ a, g.arr "norm" = some a ∧ a.ncomp = 1 ∧
+        a.tuple (flatF [nx, ny, nz] idx) = [sumSq (f.data.get idx) f.nvdim]) ∧
+      (∃ a, g.arr "valid" = some a ∧ a.int = true ∧
+        a.tuple (flatF [nx, ny, nz] idx) = [if f.valid.get idx then 1 else 0]) ∧
+      (1 < f.nvdim → ∀ vs, f.vdims = some vs → ∀ c, c < vs.length →
+        ∃ a, g.arr (vs.getD c "") = some a ∧ a.ncomp = 1 ∧
+          a.tuple (flatF [nx, ny, nz] idx) = [(f.data.get idx).getD c 0]) := by
+  obtain ⟨idx, hpi, hir, hic⟩ := C01.point_index_contains f.mesh h.mesh p hp
+  have hidx := point2index_axes f.mesh p idx hpi
+  obtain ⟨hnd, _⟩ := mesh_axes f nx ny nz h
+  rw [hnd] at hidx
+  rw [h.n] at hir
+  obtain ⟨_, hl⟩ := lookup_is_point2index f nx ny nz h g hg p hp
+  rw [← hidx] at hl
+  obtain ⟨⟨a, ha, ha1, ha2⟩, ⟨b, hb, hb2⟩, ⟨c, hc, hc1, hc2⟩⟩ := cell_carries_value f nx ny nz h g hg idx hir
+  refine ⟨idx, hpi, hir, hic, hl, ⟨a, ha, ha1, ha2⟩, ⟨b, hb, ?_, hb2⟩, ⟨c, hc, hc1, hc2⟩, ?_⟩
+  · rw [arr_norm f nx ny nz h g hg] at hb
+    injection hb with hb
+    rw [← hb]; rfl
+  · intro hnv vs hvs c hc
+    exact cell_carries_component f nx ny nz h g hg hnv vs hvs c hc idx hir
+
+/-! ## the norm array -/
+
+/-- The `norm` entry of a cell is non-negative and vanishes exactly when every component of
+the cell does (the model stores the square; the square root is the harness's). -/
+theorem norm_entry (v : List Rat) (nv : Nat) : 0 ≤ sumSq v nv ∧ (sumSq v nv = 0 ↔ ∀ c, c < nv → v.getD c 0 = 0) :=
+  ⟨sumSq_nonneg v nv, sumSq_eq_zero v nv⟩
+
+/-- **The norm of a scalar field is the absolute value.**  For a one-component field the
+`norm` array holds, at the id of cell `idx`, the number whose non-negative root is `|f(idx)|`:
+any `r ≥ 0` with `r² =` that entry equals the absolute value of the cell's value — not the raw
+(possibly negative) value. -/
+theorem norm_of_scalar_is_abs (f : Fld) (nx ny nz : Nat) (h : WF f nx ny nz) (g : Grid) (hg : toVtk f = .ok g)
+    (h1 : f.nvdim = 1) (idx : List Nat) (hi : inRange [nx, ny, nz] idx = true) (r : Rat) (hr : 0 ≤ r)
+    (a : VArr) (ha : g.arr "norm" = some a) (hrr : [r * r] = a.tuple (flatF [nx, ny, nz] idx)) :
+    r = |(f.data.get idx).getD 0 0| := by
+  rw [arr_norm f nx ny nz h g hg] at ha
+  injection ha with ha
+  rw [← ha, norm_tuple f nx ny nz h.dshape idx hi, h1] at hrr
+  injection hrr with hrr
+  exact root_sumSq_one _ r hr hrr
+
+/-- Two non-negative numbers with the same square are equal: the `norm` array is determined by
+the squares the model computes. -/
+theorem norm_determined (r s q : Rat) (hr : 0 ≤ r) (hs : 0 ≤ s) (h1 : r * r = q) (h2 : s * s = q) : r = s :=
+  root_unique r s q hr hs h1 h2
+
+/-! ## the consumer's direction: cell ids -/
+
+/-- Every array of the grid of a well-formed field has exactly one tuple per grid cell:
+`nx·ny·nz · ncomp` values. -/
+theorem grid_arrays_sized (f : Fld) (nx ny nz : Nat) (h : WF f nx ny nz) (g : Grid) (hg : toVtk f = .ok g)
+    (a : VArr) (ha : a ∈ g.cell) : a.vals.length = natProd [nx, ny, nz] * a.ncomp := by
+  rw [toVtk_ok f nx ny nz h] at hg
+  injection hg with hg
+  subst hg
+  exact cellData_sizes f nx ny nz h a ha
+
+/-- **Every grid cell is exactly one mesh cell.**  For every cell id `t < nx·ny·nz`, the
+multi-index `unflatF n t = (t mod nx, t/nx mod ny, t/(nx·ny))` is the only in-range mesh cell
+with structured id `t`, and tuple `t` of `field` / `norm` / `valid` is that cell's vector /
+squared norm / validity flag. -/
+theorem cell_id_is_mesh_cell (f : Fld) (nx ny nz : Nat) (h : WF f nx ny nz) (g : Grid) (hg : toVtk f = .ok g)
+    (t : Nat) (ht : t < natProd [nx, ny, nz]) :
+    inRange [nx, ny, nz] (unflatF [nx, ny, nz] t) = true ∧ flatF [nx, ny, nz] (unflatF [nx, ny, nz] t) = t ∧
+    (∀ idx, inRange [nx, ny, nz] idx = true → flatF [nx, ny, nz] idx = t → idx = unflatF [nx, ny, nz] t) ∧
+    (∃ a, g.arr "field" = some a ∧ a.tuple t = tab f.nvdim fun c => (f.data.get (unflatF [nx, ny, nz] t)).getD c 0) ∧
+    (∃ a, g.arr "norm" = some a ∧ a.tuple t = [sumSq (f.data.get (unflatF [nx, ny, nz] t)) f.nvdim]) ∧
+    (∃ a, g.arr "valid" = some a ∧ a.tuple t = [if f.valid.get (unflatF [nx, ny, nz] t) then 1 else 0]) := by
+  obtain ⟨hx, hy, hz⟩ := wf_pos f nx ny nz h
+  have hir := unflatF3_inRange nx ny nz t hx hy hz
+  have hfl := flatF_unflatF [nx, ny, nz] t ht
+  obtain ⟨⟨a, ha, _, ha2⟩, ⟨b, hb, hb2⟩, ⟨c, hc, _, hc2⟩⟩ := cell_carries_value f nx ny nz h g hg _ hir
+  rw [hfl] at ha2 hb2 hc2
+  refine ⟨hir, hfl, ?_, ⟨a, ha, ha2⟩, ⟨b, hb, hb2⟩, ⟨c, hc, hc2⟩⟩
+  intro idx hi he
+  exact flatF_inj _ _ _ hi hir (by rw [he, hfl])
+
+/-! ## subregions through the side-car, without assuming that the loader succeeds -/
+
+/-- **The side-car `to_file` writes is accepted by `from_file`.**  For a mesh whose subregions
+fit it exactly (`C14.SubInv`: the invariant the subregion setter establishes and every
+transformation keeps) the loader succeeds on the mesh rebuilt from bounds and dimensions, and
+stores the same names in the same order with the same corners (re-stamped with the rebuilt
+mesh's default names, units and tolerance); without `save_subregions`, or without subregions,
+the rebuilt mesh has none. -/
+theorem sidecar_accepted (f : Fld) (nx ny nz : Nat) (h : WF f nx ny nz) (hsub : C14.SubInv f.mesh) (save : Bool) :
+    ∃ m1, loadSubs { region := plainRegion f.mesh.region.pmin f.mesh.region.pmax, n := [nx, ny, nz], bc := "", subs := [] }
+        (if save && !f.mesh.subs.isEmpty then some f.mesh.subs else none) = .ok m1 ∧
+      m1.region = plainRegion f.mesh.region.pmin f.mesh.region.pmax ∧ m1.n = [nx, ny, nz] ∧ m1.bc = "" ∧
+      m1.subs.map (fun p => (p.1, p.2.pmin, p.2.pmax)) =
+        (if save then f.mesh.subs else []).map (fun p => (p.1, p.2.pmin, p.2.pmax)) := by
+  refine ⟨_, loadSubs_written f nx ny nz h hsub save, rfl, rfl, rfl, ?_⟩
+  cases save
+  · rfl
+  · simp [List.map_map, Function.comp_def, rebuilt]
+
+/-- the subregion hypothesis is met by the example field -/
+example : C14.SubInv exField.mesh := exField_subinv
+
+/-- **`vtk_roundtrip` (binary and XML files), no loader hypothesis.**  For every well-formed
+3-d field whose subregions fit its mesh, every representation `xml` / `bin` / `bin8`, with or
+without `save_subregions`: the write succeeds, the read succeeds, and the field read back has
+the same corners, cell counts, number of components, labels, values and validity, and (when
+saved) the same subregions — names, order, corners. -/
+theorem file_roundtrip_exact_subs (f : Fld) (nx ny nz : Nat) (h : WF f nx ny nz) (hsub : C14.SubInv f.mesh)
+    (rep : String) (hrep : rep = "xml" ∨ rep = "bin" ∨ rep = "bin8") (save : Bool) (rnd : Rat → Rat) :
+    ∃ v f', toFile f rep save rnd = .ok v ∧ fromFile v = .ok f' ∧
+      f'.mesh.region.pmin = f.mesh.region.pmin ∧ f'.mesh.region.pmax = f.mesh.region.pmax ∧
+      f'.mesh.n = f.mesh.n ∧ f'.nvdim = f.nvdim ∧ f'.vdims = (if f.nvdim = 1 then none else f.vdims) ∧
+      f'.mesh.subs.map (fun p => (p.1, p.2.pmin, p.2.pmax)) =
+        (if save then f.mesh.subs else []).map (fun p => (p.1, p.2.pmin, p.2.pmax)) ∧
+      ∀ idx, inRange [nx, ny, nz] idx = true →
+        f'.data.get idx = (tab f.nvdim fun c => (f.data.get idx).getD c 0) ∧
+        f'.valid.get idx = f.valid.get idx := by
+  obtain ⟨m1, hm1, hr, hn, _, hs⟩ := sidecar_accepted f nx ny nz h hsub save
+  obtain ⟨v, f', h1, h2, h3, h4, h5, h6⟩ := file_roundtrip_exact f nx ny nz h rep hrep save rnd m1 hm1
+  refine ⟨v, f', h1, h2, ?_, ?_, ?_, h4, h5, ?_, h6⟩
+  · rw [h3, hr]; rfl
+  · rw [h3, hr]; rfl
+  · rw [h3, hn, h.n]
+  · rw [h3]; exact hs
+
+/-- **The round trip is the identity on what a VTK file can carry.**  If moreover the region
+has the default names, units and tolerance, the mesh has no boundary condition, the
+subregions are saved and every cell vector has `nvdim` entries, then the mesh read back **is**
+the mesh written (region, counts, subregions with all their attributes) and every cell holds
+the same vector and flag. -/
+theorem file_roundtrip_identity (f : Fld) (nx ny nz : Nat) (h : WF f nx ny nz) (hsub : C14.SubInv f.mesh)
+    (hreg : f.mesh.region = plainRegion f.mesh.region.pmin f.mesh.region.pmax) (hbc : f.mesh.bc = "")
+    (hlen : ∀ idx, inRange [nx, ny, nz] idx = true → (f.data.get idx).length = f.nvdim)
+    (rep : String) (hrep : rep = "xml" ∨ rep = "bin" ∨ rep = "bin8") (rnd : Rat → Rat) :
+    ∃ v f', toFile f rep true rnd = .ok v ∧ fromFile v = .ok f' ∧ f'.mesh = f.mesh ∧ f'.nvdim = f.nvdim ∧
+      f'.vdims = (if f.nvdim = 1 then none else f.vdims) ∧
+      ∀ idx, inRange [nx, ny, nz] idx = true → f'.data.get idx = f.data.get idx ∧ f'.valid.get idx = f.valid.get idx := by
+  have hm1 := loadSubs_written f nx ny nz h hsub true
+  obtain ⟨v, f', h1, h2, h3, h4, h5, h6⟩ := file_roundtrip_exact f nx ny nz h rep hrep true rnd _ hm1
+  refine ⟨v, f', h1, h2, ?_, h4, h5, ?_⟩
+  · rw [h3]
+    simp only [if_true]
+    rw [rebuilt_id f [nx, ny, nz] hreg hsub]
+    exact (mesh_eq_of f.mesh _ _ hreg h.n hbc).symm
+  · intro idx hi
+    obtain ⟨a, b⟩ := h6 idx hi
+    refine ⟨?_, b⟩
+    rw [a]
+    exact (eq_tab_of_getD _ _ _ 0 (hlen idx hi) (fun _ _ => rfl)).symm
+
+/-- the extra hypotheses of `file_roundtrip_identity` are met by the example field -/
+example : exField.mesh.region = plainRegion exField.mesh.region.pmin exField.mesh.region.pmax ∧ exField.mesh.bc = "" ∧
+    ∀ idx, inRange [2, 1, 2] idx = true → (exField.data.get idx).length = exField.nvdim := by
+  refine ⟨rfl, rfl, ?_⟩
+  intro idx hi
+  obtain ⟨i, j, k, rfl, h1, h2, h3⟩ := inRange3_cases 2 1 2 idx hi
+  have : (i = 0 ∨ i = 1) ∧ j = 0 ∧ (k = 0 ∨ k = 1) := by omega
+  obtain ⟨rfl | rfl, rfl, rfl | rfl⟩ := this <;> decide +kernel
+
+/-- **Text files keep the digits the writer keeps.**  If the text writer's rounding has
+relative error at most `ε` (VTK: ten significant digits), every value read back from a text
+file is within `ε·|value|` of the value written, and both corners are within `ε·|corner|`;
+the validity flags are exact. -/
+theorem text_keeps_digits (f : Fld) (nx ny nz : Nat) (h : WF f nx ny nz) (save : Bool) (rnd : Rat → Rat) (ε : Rat)
+    (hε : ∀ x, |rnd x - x| ≤ ε * |x|)
+    (hlt : ∀ a, a < 3 → rnd (f.mesh.region.lo a) < rnd (f.mesh.region.hi a)) (m1 : Mesh)
+    (hsub : loadSubs { region := plainRegion (tab 3 fun a => rnd (f.mesh.region.lo a)) (tab 3 fun a => rnd (f.mesh.region.hi a)),
+                       n := [nx, ny, nz], bc := "", subs := [] }
+              (if save && !f.mesh.subs.isEmpty then some f.mesh.subs else none) = .ok m1) :
+    ∃ v f', toFile f "txt" save rnd = .ok v ∧ fromFile v = .ok f' ∧ f'.mesh.n = [nx, ny, nz] ∧
+      (∀ a, a < 3 → |f'.mesh.region.lo a - f.mesh.region.lo a| ≤ ε * |f.mesh.region.lo a| ∧
+                    |f'.mesh.region.hi a - f.mesh.region.hi a| ≤ ε * |f.mesh.region.hi a|) ∧
+      ∀ idx, inRange [nx, ny, nz] idx = true →
+        (∀ c, c < f.nvdim → |(f'.data.get idx).getD c 0 - (f.data.get idx).getD c 0| ≤ ε * |(f.data.get idx).getD c 0|) ∧
+        f'.valid.get idx = f.valid.get idx := by
+  obtain ⟨v, f', h1, h2, h3, _, _, h6⟩ := file_roundtrip_text f nx ny nz h save rnd hlt m1 hsub
+  obtain ⟨hr, hn, _⟩ := loadSubs_geom _ _ _ hsub
+  refine ⟨v, f', h1, h2, by rw [h3, hn], ?_, ?_⟩
+  · intro a ha
+    rw [h3]
+    unfold Region.lo Region.hi
+    rw [hr]
+    simp only [plainRegion]
+    rw [getD_tab _ _ _ _ ha, getD_tab _ _ _ _ ha]
+    exact ⟨hε _, hε _⟩
+  · intro idx hi
+    obtain ⟨a, b⟩ := h6 idx hi
+    refine ⟨?_, b⟩
+    intro c hc
+    rw [a, getD_tab _ _ _ _ hc]
+    exact hε _
+
+/-- the error bound of `text_keeps_digits` is met by an exact writer with `ε = 0` -/
+example : ∀ x : Rat, |id x - x| ≤ 0 * |x| := by intro x; simp
+
+/-! ## round 4: acceptance, uniqueness off the faces, file → field → file -/
+
+/-- **Acceptance, exactly.**  `to_file` succeeds if and only if the representation is one of
+`xml`, `bin`, `bin8`, `txt`, the region is three-dimensional and a field with more than one
+component has labels — nothing else about the field (values, mask, subregions, labels that
+collide) can make the write fail. -/
+theorem write_accepted_iff (f : Fld) (rep : String) (save : Bool) (rnd : Rat → Rat) :
+    (∃ v, toFile f rep save rnd = .ok v) ↔
+      ((rep = "xml" ∨ rep = "bin" ∨ rep = "bin8" ∨ rep = "txt") ∧ f.mesh.region.ndim = 3 ∧
+        ¬ (1 < f.nvdim ∧ f.vdims = none)) :=
+  toFile_ok_iff f rep save rnd
+
+/-- The active attributes: a viewer's default arrows come from `field` exactly for three
+components, its default colouring from `field` exactly for one. -/
+theorem active_attributes (f : Fld) :
+    ((activeAttr f).2 = some "field" ↔ f.nvdim = 3) ∧ ((activeAttr f).1 = some "field" ↔ f.nvdim = 1) := by
+  unfold activeAttr
+  constructor
+  · by_cases h3 : f.nvdim = 3
+    · simp [h3]
+    · by_cases h1 : f.nvdim = 1 <;> simp [h3, h1]
+  · by_cases h3 : f.nvdim = 3
+    · simp [h3]
+    · by_cases h1 : f.nvdim = 1 <;> simp [h3, h1]
+
+/-- **Off the faces the cell is unique**, so it does not matter how a consumer breaks ties: if
+`p` lies strictly inside the box of mesh cell `idx` on every axis, every in-range cell whose
+closed box contains `p` is `idx` (with `located_cell_box`: any lookup contract that returns a
+cell containing `p` returns the id of `idx`). -/
+theorem lookup_unique_off_faces (f : Fld) (nx ny nz : Nat) (h : WF f nx ny nz) (p : List Rat) (idx idx' : List Nat)
+    (hi : inRange [nx, ny, nz] idx = true) (hi' : inRange [nx, ny, nz] idx' = true)
+    (hstrict : ∀ a, a < 3 → f.mesh.region.lo a + (idx.getD a 0 : Rat) * f.mesh.cellAt a < p.getD a 0 ∧
+      p.getD a 0 < f.mesh.region.lo a + ((idx.getD a 0 : Rat) + 1) * f.mesh.cellAt a)
+    (hclosed : ∀ a, a < 3 → f.mesh.region.lo a + (idx'.getD a 0 : Rat) * f.mesh.cellAt a ≤ p.getD a 0 ∧
+      p.getD a 0 ≤ f.mesh.region.lo a + ((idx'.getD a 0 : Rat) + 1) * f.mesh.cellAt a) :
+    idx' = idx := by
+  obtain ⟨_, _, _, hax, _, _, _⟩ := mesh_axes f nx ny nz h
+  obtain ⟨i, j, k, rfl, _, _, _⟩ := inRange3_cases nx ny nz idx hi
+  obtain ⟨i', j', k', rfl, _, _, _⟩ := inRange3_cases nx ny nz idx' hi'
+  have key : ∀ a, a < 3 → [i', j', k'].getD a 0 = [i, j, k].getD a 0 := fun a ha =>
+    interval_unique _ _ _ (C01.cell_pos f.mesh a (hax a ha).1 (hax a ha).2) _ _
+      (hstrict a ha).1 (hstrict a ha).2 (hclosed a ha).1 (hclosed a ha).2
+  have e0 := key 0 (by omega)
+  have e1 := key 1 (by omega)
+  have e2 := key 2 (by omega)
+  simp only [List.getD_cons_zero, List.getD_cons_succ] at e0 e1 e2
+  rw [e0, e1, e2]
+
+/-- **What is read back is a well-formed field again** (closure): `_from_vtk` applied to the
+grid of a well-formed field — with any side-car it accepts — returns a field that satisfies `WF`
+with the same counts, so every theorem of this file applies to it in turn. -/
+theorem read_back_well_formed (f : Fld) (nx ny nz : Nat) (h : WF f nx ny nz) (g : Grid) (hg : toVtk f = .ok g)
+    (sc : Option (List (String × Region))) (f' : Fld) (hf' : fromCells g sc = .ok f') : WF f' nx ny nz :=
+  (roundtrip_wf f nx ny nz h g hg sc f' hf').1
+
+/-- **File → field → file is the identity.**  Converting the field that was read back from the
+grid of a well-formed field gives exactly that grid again: same dimensions, same coordinate
+arrays, the same arrays in the same order with the same values — so re-saving a file that was
+loaded writes the same data. -/
+theorem reread_rewrite_identity (f : Fld) (nx ny nz : Nat) (h : WF f nx ny nz) (g : Grid) (hg : toVtk f = .ok g)
+    (sc : Option (List (String × Region))) (f' : Fld) (hf' : fromCells g sc = .ok f') : toVtk f' = .ok g := by
+  obtain ⟨hwf, hp1, hp2, hnv, hvd, hd⟩ := roundtrip_wf f nx ny nz h g hg sc f' hf'
+  rw [← hg]
+  apply toVtk_congr f f' nx ny nz h hwf hp1 hp2 hnv
+  · intro h1
+    rw [hvd, if_neg (by omega)]
+  · intro idx hi c hc
+    rw [(hd idx hi).1, getD_tab _ _ _ _ hc]
+  · intro idx hi
+    exact (hd idx hi).2
+
+/-- the same for the example, through a binary file and back, twice -/
+example : (((toFile exField "bin" true id).bind fromFile).bind fun f' => toVtk f') = toVtk exField := by
+  decide +kernel
+
+/-! ## round 4: histories — the same file name written and read again -/
+
+/-- **The read result is a function of the file content only**: `from_file(name)` depends on
+the directory through `<name>` and `<name>.subregions.json` alone (no reader state survives a
+call: the model is a function of these two files). -/
+theorem read_depends_on_files_only (d d' : Dir) (name : String) (h1 : look d'.vtk name = look d.vtk name)
+    (h2 : look d'.json name = look d.json name) : d'.read name = d.read name :=
+  read_congr d d' name h1 h2
+
+/-- A rejected `to_file` (unknown representation, not 3-d, unlabelled vector field) leaves the
+directory exactly as it was: neither the file nor the side-car is created or changed. -/
+theorem rejected_write_writes_nothing (rnd : Rat → Rat) (d : Dir) (name : String) (f : Fld) (rep : String)
+    (save : Bool) (e : Err) (h : toFile f rep save rnd = .error e) :
+    (d.step rnd (.write name f rep save)).1 = d ∧ (d.step rnd (.write name f rep save)).2 = .error e := by
+  simp [Dir.step, Dir.write, h]
+
+/-- Calls on other file names (reads, writes, rejected writes — any session) change neither of
+the two files of `name`. -/
+theorem other_names_untouched (rnd : Rat → Rat) (d : Dir) (ops : List DOp) (name : String)
+    (h : ∀ o ∈ ops, o.name ≠ name) : (Dir.after rnd d ops).read name = d.read name := by
+  obtain ⟨h1, h2⟩ := after_other rnd d ops name h
+  exact read_congr _ _ _ h1 h2
+
+/-- **Reading after any history** (induction over sessions).  Take any directory, any session
+`before`, then a successful `to_file(name)`, then any session `after` on other file names, then
+`from_file(name)`: the result is the reader applied to the grid written **last** under that
+name, with the side-car that call wrote — or, when that call wrote none, whatever side-car of
+that name the earlier history left behind. -/
+theorem read_after_history (rnd : Rat → Rat) (d : Dir) (before after : List DOp) (name : String) (f : Fld)
+    (rep : String) (save : Bool) (v : VFile) (hv : toFile f rep save rnd = .ok v)
+    (hafter : ∀ o ∈ after, o.name ≠ name) :
+    (Dir.run rnd d (before ++ .write name f rep save :: (after ++ [.read name]))).getLast? =
+      some ((readVtk v.grid [] (match v.sidecar with
+                                | some s => some s
+                                | none => look (Dir.after rnd d before).json name)).map some) := by
+  have e : before ++ .write name f rep save :: (after ++ [.read name]) =
+      (before ++ .write name f rep save :: after) ++ [.read name] := by simp
+  rw [e, run_append_read, List.getLast?_append]
+  simp only [List.getLast?_singleton, Option.some_or]
+  congr 2
+  rw [after_append]
+  simp only [Dir.after]
+  cases hw : (Dir.after rnd d before).write name f rep save rnd with
+  | error e =>
+    simp only [Dir.write, hv] at hw
+    cases hw
+  | ok d' =>
+    have hs : ((Dir.after rnd d before).step rnd (.write name f rep save)).1 = d' := by
+      simp only [Dir.step, hw]
+    rw [hs, other_names_untouched rnd d' after name hafter]
+    obtain ⟨v', hv', hr⟩ := write_read_same _ _ _ _ _ _ _ hw
+    rw [hv] at hv'
+    injection hv' with hv'
+    subst hv'
+    exact hr
+
+/-- **Round trip after any history.**  Whatever was written and read in the directory before
+(other fields under the same name, in any representation), and whatever happens to other file
+names afterwards: reading the name returns the field written to it **last** — same corners,
+counts, components, labels, values, validity, subregions — provided this last call wrote its
+side-car or no side-car of that name was left behind by the earlier history. -/
+theorem history_roundtrip (f : Fld) (nx ny nz : Nat) (h : WF f nx ny nz) (hsub : C14.SubInv f.mesh)
+    (rep : String) (hrep : rep = "xml" ∨ rep = "bin" ∨ rep = "bin8") (save : Bool) (rnd : Rat → Rat)
+    (d : Dir) (before after : List DOp) (name : String) (hafter : ∀ o ∈ after, o.name ≠ name)
+    (hfresh : (save = true ∧ f.mesh.subs.isEmpty = false) ∨ look (Dir.after rnd d before).json name = none) :
+    ∃ f', (Dir.run rnd d (before ++ .write name f rep save :: (after ++ [.read name]))).getLast? = some (.ok (some f')) ∧
+      f'.mesh.region.pmin = f.mesh.region.pmin ∧ f'.mesh.region.pmax = f.mesh.region.pmax ∧
+      f'.mesh.n = f.mesh.n ∧ f'.nvdim = f.nvdim ∧ f'.vdims = (if f.nvdim = 1 then none else f.vdims) ∧
+      f'.mesh.subs.map (fun p => (p.1, p.2.pmin, p.2.pmax)) =
+        (if save then f.mesh.subs else []).map (fun p => (p.1, p.2.pmin, p.2.pmax)) ∧
+      ∀ idx, inRange [nx, ny, nz] idx = true →
+        f'.data.get idx = (tab f.nvdim fun c => (f.data.get idx).getD c 0) ∧
+        f'.valid.get idx = f.valid.get idx := by
+  obtain ⟨v, f', h1, h2, h3⟩ := file_roundtrip_exact_subs f nx ny nz h hsub rep hrep save rnd
+  refine ⟨f', ?_, h3⟩
+  rw [read_after_history rnd d before after name f rep save v h1 hafter]
+  have hsc := (file_written f rep save rnd v h1).2.2
+  have : (match v.sidecar with
+          | some s => some s
+          | none => look (Dir.after rnd d before).json name) = v.sidecar := by
+    rcases hfresh with ⟨hs, he⟩ | hn
+    · rw [hsc, hs, he]; rfl
+    · rw [hn]; cases v.sidecar <;> rfl
+  rw [this]
+  have : readVtk v.grid [] v.sidecar = .ok f' := h2
+  rw [this]
+  rfl
+
+/-- **Finding (stale side-car, D64).**  A `to_file` that writes no side-car (no subregions, or
+`save_subregions=False`) leaves an existing `<name>.subregions.json` in place, and the next
+`from_file(name)` applies **that** side-car to the new field: it returns subregions the field
+written last does not have, or fails when they do not fit the new mesh. -/
+theorem stale_sidecar (rnd : Rat → Rat) (d : Dir) (name : String) (f : Fld) (rep : String) (save : Bool) (v : VFile)
+    (sc : List (String × Region)) (hv : toFile f rep save rnd = .ok v) (hnone : v.sidecar = none)
+    (hold : look d.json name = some sc) :
+    ∃ d', d.write name f rep save rnd = .ok d' ∧ d'.read name = readVtk v.grid [] (some sc) := by
+  cases hw : d.write name f rep save rnd with
+  | error e =>
+    simp only [Dir.write, hv] at hw
+    cases hw
+  | ok d' =>
+    obtain ⟨v', hv', hr⟩ := write_read_same _ _ _ _ _ _ _ hw
+    rw [hv] at hv'
+    injection hv' with hv'
+    subst hv'
+    rw [hnone, hold] at hr
+    exact ⟨d', rfl, hr⟩
+
+/-- the witness of D64 in the model: the example field (one subregion `s`) is written, then
+the same field **without** subregions under the same name; the read returns `s`; a third field
+on a mesh that `s` does not fit cannot be read back at all -/
+theorem stale_sidecar_witness :
+    ((Dir.run id ⟨[], []⟩ [.write "a.vtk" exField "bin" true,
+        .write "a.vtk" { exField with mesh := { exField.mesh with subs := [] } } "bin" true,
+        .read "a.vtk"]).map fun r => r.toOption.map fun o => o.map fun f => f.mesh.subs.map fun p => p.1) =
+      [some none, some none, some (some ["s"])] ∧
+    ((Dir.run id ⟨[], []⟩ [.write "a.vtk" exField "bin" true,
+        .write "a.vtk" { exField with mesh := { region := { exField.mesh.region with pmin := [9, 0, 1/2], pmax := [11, 3, 3/2] },
+                                                n := [2, 1, 2], bc := "", subs := [] } } "xml" true,
+        .read "a.vtk"]).map fun r => r.toOption.map fun o => o.map fun f => f.mesh.subs.map fun p => p.1) =
+      [some none, some none, none] := by
+  constructor <;> decide +kernel
+
+/-- the hypotheses of `history_roundtrip` are met: the example field with its subregion, after
+an earlier write of another field under the same name and a later write to another name -/
+example : ((Dir.run id ⟨[], []⟩ ([.write "a.vtk" { exField with mesh := { exField.mesh with subs := [] } } "xml" false] ++
+      .write "a.vtk" exField "bin8" true :: ([.write "b.vtk" exField "bin" false] ++ [.read "a.vtk"]))).getLast?.map
+        fun r => r.toOption.map fun o => o.map fun f => (f.data.toList, f.mesh.subs.map fun p => p.1)) =
+    some (some (some ([[3, 4], [0, -1], [5, 12], [7, 1/2]], ["s"]))) := by decide +kernel
+
 /-! ## legacy point-data files -/
 
 /-- **`legacy_points`.**  A file of the old layout — header, three coordinate blocks with
@@ -436,6 +924,144 @@ example : ((legacyRead (legacyFile [.alpha, .alpha] [.alpha] [] (fun a => [3, 1,
       [[1, 0, 0], [2, 0, 0], [3, 0, 0], [4, 0, 0], [5, 0, 0], [6, 0, 0]]) none).toOption.map
         fun f => (f.mesh.n, f.mesh.region.pmin, f.data.get [2, 0, 1], f.vdims)) =
     some ([3, 1, 2], [-1/4, 5 - nm1 / 2, -2], [6, 0, 0], some ["x", "y", "z"]) := by decide +kernel
+
+/-! ## round 4: legacy files with split coordinate lines and a side-car; refusals -/
+
+/-- **`legacy_points`, split coordinate blocks, side-car.**  The legacy reader only looks at the
+**first** line after each `*_COORDINATES` header.  So a point-data file whose coordinate blocks
+run over several lines (as VTK's own text writer produces: nine numbers per line) is read like
+the one-line form as long as that first line holds the first coordinate and — on an axis with
+more than one point — the second: `N a` cells per axis centred on the points, one value per
+cell in x-fastest order, all valid, default labels `x y z` for vector files; with any side-car
+the loader accepts on that mesh, the subregions it yields. -/
+theorem legacy_points_split (pre mid post : List LLine) (N : Nat → Nat) (o c : Nat → Rat) (first : Nat → List Rat)
+    (cont : Nat → List LLine) (vec : Bool) (rows : List (List Rat))
+    (sidecar : Option (List (String × Region))) (m1 : Mesh)
+    (hpre : Quiet pre) (hmid : Quiet mid) (hcont : ∀ a, a < 3 → Quiet (cont a))
+    (hpost : ∀ x ∈ post, ∀ k, x ≠ .coords k)
+    (hsc : vec = false → (∀ x ∈ pre ++ (cont 0 ++ (cont 1 ++ (cont 2 ++ mid))), x ≠ .scalars) ∧ ∀ x ∈ post, x ≠ .vectors)
+    (hN : ∀ a, a < 3 → 1 ≤ N a) (hc : ∀ a, a < 3 → 0 < c a)
+    (hfirst : ∀ a, a < 3 → 1 ≤ (first a).length ∧ (first a).getD 0 0 = o a ∧
+      (1 < N a → 1 < (first a).length ∧ (first a).getD 1 0 = o a + c a) ∧ (N a = 1 → (first a).length = 1))
+    (hrows : rows.length = natProd [N 0, N 1, N 2]) (hrow : ∀ r ∈ rows, r.length = if vec then 3 else 1)
+    (hsub : loadSubs { region := plainRegion (tab 3 (fun a => o a - legCe N c a * (1/2)))
+                                  (tab 3 (fun a => o a - legCe N c a * (1/2) + (N a : Rat) * legCe N c a)),
+                       n := [N 0, N 1, N 2], bc := "", subs := [] } sidecar = .ok m1) :
+    ∃ f', legacyRead (legacyFileSplit pre mid post N first cont vec rows) sidecar = .ok f' ∧
+      f'.mesh.n = [N 0, N 1, N 2] ∧ f'.mesh.subs = m1.subs ∧ f'.nvdim = (if vec then 3 else 1) ∧
+      f'.vdims = (if vec then some ["x", "y", "z"] else none) ∧
+      (∀ a, a < 3 → ∀ j : Nat, f'.mesh.centreAx a (j : Int) = o a + (j : Rat) * legCe N c a) ∧
+      (∀ idx, inRange [N 0, N 1, N 2] idx = true →
+        f'.data.get idx = rows.getD (flatF [N 0, N 1, N 2] idx) [] ∧ f'.valid.get idx = true) := by
+  obtain ⟨f', h1, h2, h3, h4, h5⟩ :=
+    legacyRead_split pre mid post N o c first cont vec rows sidecar m1 hpre hmid hcont hpost hsc hN hc hfirst hrows hrow hsub
+  obtain ⟨hr, hn, _⟩ := loadSubs_geom _ _ _ hsub
+  simp only at hr hn
+  refine ⟨f', h1, by rw [h2, hn], by rw [h2], h3, h4, ?_, h5⟩
+  intro a ha j
+  apply legacy_centre f'.mesh a (N a) (o a) (legCe N c a) (hN a ha)
+  · have : a = 0 ∨ a = 1 ∨ a = 2 := by omega
+    rcases this with rfl | rfl | rfl <;> simp [Mesh.nAt, h2, hn]
+  · unfold Region.lo; rw [h2, hr]; simp only [plainRegion]; rw [getD_tab _ _ _ _ ha]
+  · unfold Region.hi; rw [h2, hr]; simp only [plainRegion]; rw [getD_tab _ _ _ _ ha]
+
+/-- the hypotheses of `legacy_points_split` are met by a scalar file with 3 × 2 × 1 points whose
+x block runs over two lines, with a side-car holding the whole region -/
+example : ((legacyRead (legacyFileSplit [.alpha, .alpha] [.alpha] [] (fun a => [3, 2, 1].getD a 0)
+      (fun a => [[0, 1/2], [5, 6], [-1]].getD a []) (fun a => [[LLine.nums [1]], [], []].getD a []) false
+      [[1], [2], [3], [4], [5], [6]])
+      (some [("w", { pmin := [-1/4, 9/2, -1 - nm1 / 2], pmax := [5/4, 13/2, -1 + nm1 / 2], dims := ["x", "y", "z"],
+                     units := ["m", "m", "m"], tol := 1/1000000000000 })])).toOption.map
+        fun f => (f.mesh.n, f.mesh.region.pmin, f.data.get [2, 1, 0], f.mesh.subs.map fun p => p.1)) =
+    some ([3, 2, 1], [-1/4, 9/2, -1 - nm1 / 2], [6], ["w"]) := by decide +kernel
+
+/-- **Refusal: no data marker.**  A point-data file without a line starting with `VECTORS` or
+`SCALARS` is not read (whatever else it holds, with or without side-car). -/
+theorem legacy_needs_marker (lines : List LLine) (sc : Option (List (String × Region)))
+    (h : ∀ x ∈ lines, x ≠ .vectors ∧ x ≠ .scalars) : ∃ e, legacyRead lines sc = .error e := by
+  have hv : lines.contains .vectors = false := by
+    cases hc : lines.contains .vectors with
+    | false => rfl
+    | true => exact absurd rfl (h _ (List.contains_iff_mem.mp hc)).1
+  have hm : afterMarker false lines = none :=
+    afterMarker_none false lines (by intro x hx; simp [(h x hx).2])
+  unfold legacyRead
+  rw [hv]
+  split
+  · exact ⟨_, rfl⟩
+  · split
+    · exact ⟨_, rfl⟩
+    · split
+      · exact ⟨_, rfl⟩
+      · split
+        · exact ⟨_, rfl⟩
+        · split
+          · exact ⟨_, rfl⟩
+          · simp only [hm]
+            exact ⟨_, rfl⟩
+
+/-- **Refusal: no `field` array.**  A cell-data file without an array called `field` is not
+read, whatever other arrays it has. -/
+theorem read_needs_field_array (g : Grid) (sc : Option (List (String × Region)))
+    (h : ∀ a ∈ g.cell, a.name ≠ "field") : fromCells g sc = .error .runtime := by
+  unfold fromCells
+  rw [scan_fieldIdx_none g.cell 0 _ rfl h]
+
+/-- **The reader, on any grid with cell data** (index-level spec of `_from_vtk`, also for files
+`to_file` did not write: reordered, extra or missing side arrays).  Whenever the read succeeds,
+everything comes from the grid alone: the values from the **last** array called `field`
+(wherever it stands), cell `(i, j, k)` taking tuple `i + nx·(j + ny·k)`; the cell counts from
+the dimensions (all positive); the corners from the bounds; the validity from the array called
+`valid` as "entry ≠ 0" (`True` everywhere when there is none) — a Boolean whatever integers the
+file holds; the labels from the names of all arrays other than `field` / `valid` / `norm`, in
+file order, when their number is the number of components (default labels otherwise). -/
+theorem reader_spec (g : Grid) (sc : Option (List (String × Region))) (f' : Fld) (nx ny nz : Nat)
+    (hn : g.n = [nx, ny, nz]) (h : fromCells g sc = .ok f') :
+    ∃ fi, fi < g.cell.length ∧ (g.cell.getD fi default).name = "field" ∧
+      (∀ q, fi < q → q < g.cell.length → (g.cell.getD q default).name ≠ "field") ∧
+      f'.mesh.n = [nx, ny, nz] ∧ 0 < nx ∧ 0 < ny ∧ 0 < nz ∧
+      f'.mesh.region.pmin = (tab 3 fun a => min (g.p1.getD a 0) (g.p2.getD a 0)) ∧
+      f'.mesh.region.pmax = (tab 3 fun a => max (g.p1.getD a 0) (g.p2.getD a 0)) ∧
+      f'.nvdim = (g.cell.getD fi default).ncomp ∧ 1 ≤ f'.nvdim ∧
+      (∀ i j k c, c < f'.nvdim → (f'.data.get [i, j, k]).getD c 0 =
+        (g.cell.getD fi default).vals.getD (flatF [nx, ny, nz] [i, j, k] * f'.nvdim + c) 0) ∧
+      (∀ i j k, f'.valid.get [i, j, k] =
+        readFlag g (scan g.cell 0 ⟨none, none, []⟩).validIdx (flatF [nx, ny, nz] [i, j, k])) ∧
+      vdimsSet f'.nvdim
+        (if ((g.cell.filter isLabel).map fun a => a.name).length ≠ f'.nvdim then none
+         else some ((g.cell.filter isLabel).map fun a => a.name)) = .ok f'.vdims := by
+  obtain ⟨fi, h1, h2, h3, h4, h5, h6, h7, h8, h9, _, h11, h12, h13⟩ := fromCells_spec g sc f' nx ny nz hn h
+  have hsc := scan_fieldIdx g.cell 0 ⟨none, none, []⟩ fi h1
+  rcases hsc with ⟨hbad, _⟩ | ⟨_, k1, k2, k3⟩
+  · cases hbad
+  · simp only [Nat.sub_zero] at k1 k2 k3
+    refine ⟨fi, k1, k2, k3, h2, h3, h4, h5, h6, h7, h8, h9, h11, h12, ?_⟩
+    rw [scan_vdims] at h13
+    simp only [List.nil_append] at h13
+    rw [h8]
+    exact h13
+
+/-- the reader spec is not vacuous: a grid with the arrays in another order, an extra array
+and flags other than 0/1 is read; values come from `field`, labels from the other names -/
+example : ((fromCells (Grid.mk [3, 2, 2] [[0, 1, 2], [0, 1], [5, 7]]
+      [⟨"field", 2, false, [1, 2, 3, 4]⟩, ⟨"valid", 1, true, [7, 0]⟩, ⟨"q", 1, false, [0, 0]⟩,
+       ⟨"norm", 1, false, [0, 0]⟩, ⟨"p", 1, false, [0, 0]⟩]) none).toOption.map
+      fun f => (f.data.get [1, 0, 0], f.valid.toList, f.vdims, f.mesh.region.pmax)) =
+    some ([3, 4], [true, false], some ["q", "p"], [2, 1, 7]) := by decide +kernel
+
+/-- A grid without cell data goes to the legacy reader, every other grid to `_from_vtk`'s own
+path; the tokenised text is not looked at in the second case. -/
+theorem read_dispatch (g : Grid) (lines lines' : List LLine) (sc : Option (List (String × Region))) :
+    (g.cell = [] → readVtk g lines sc = legacyRead lines sc) ∧
+    (g.cell ≠ [] → readVtk g lines sc = readVtk g lines' sc) := by
+  constructor
+  · intro h; simp [readVtk, h]
+  · intro h
+    have : g.cell.isEmpty = false := by
+      cases hc : g.cell with
+      | nil => exact absurd hc h
+      | cons a l => rfl
+    simp [readVtk, this]
 
 /-! ## Non-vacuity and the label findings -/
 
@@ -487,5 +1113,18 @@ and falls back to the defaults: `["field", "b"]` comes back as `["x", "y"]`. -/
 theorem field_label_lost :
     ((toFile { exField with vdims := some ["field", "b"] } "bin" false id).bind fromFile).toOption.map
       (fun f => (f.nvdim, f.vdims)) = some (2, some ["x", "y"]) := by decide +kernel
+
+/-- **Finding (text form + side-car, D63).**  When the text writer's rounding moves the grid
+coordinates, the exact side-car corners no longer fit the mesh rebuilt from the rounded bounds
+and the whole read fails: the field `exThird` (x edge 2/3, subregion of one cell) under a
+rounding to multiples of 1/8 is read back from the binary file with its subregion, is read back
+from the text file **without** side-car (rounded corner 5/8, values kept), and cannot be read
+back from the text file with side-car. -/
+theorem text_sidecar_rejected_witness :
+    (((toFile exThird "bin" true rnd8).bind fromFile).toOption.map fun f => f.mesh.subs.map fun p => p.1) = some ["s"] ∧
+    (((toFile exThird "txt" false rnd8).bind fromFile).toOption.map fun f => (f.mesh.region.pmax, f.data.get [1, 0, 1])) =
+      some ([5/8, 3, 1], [7, 1/2]) ∧
+    (((toFile exThird "txt" true rnd8).bind fromFile).toOption.map fun f => f.mesh.subs.map fun p => p.1) = none := by
+  refine ⟨?_, ?_, ?_⟩ <;> decide +kernel
 
 end DFV.C16
